@@ -207,7 +207,7 @@ func build(tier string) []*explore.Scenario {
 	}
 	cfgs := []hlib.ChanCfg{{1, true}, {2, true}, {0, false}}
 	if tier == "thorough" {
-		cfgs = append(cfgs, hlib.ChanCfg{3, true}, hlib.ChanCfg{2, false})
+		cfgs = append(cfgs, hlib.ChanCfg{3, true}, hlib.ChanCfg{4, true}) // (non-blocking queues refuse writes with queue-full: truncated messages are not alterations)
 	}
 	type mix struct {
 		eps   []int
